@@ -16,7 +16,7 @@ func init() {
 
 func clusterAlphabet(nodes int) []core.VEvent {
 	var ev []core.VEvent
-	ev = append(ev, core.VEvent{K: "LA", N: 1}, core.VEvent{K: "LA", N: 1, CP: true}, core.VEvent{K: "LA", N: 2}, core.VEvent{K: "LA", N: 2, CP: true}, core.VEvent{K: "LA", N: 1, Fail: true})
+	ev = append(ev, core.VEvent{K: "LA", N: 1}, core.VEvent{K: "LA", N: 1, CP: true}, core.VEvent{K: "LA", N: 2}, core.VEvent{K: "LA", N: 2, CP: true}, core.VEvent{K: "LA", N: 1, Fail: true}, core.VEvent{K: "LA", N: 2, CP2: true})
 	for n := 0; n < nodes; n++ {
 		ev = append(ev, core.VEvent{K: "RP", Node: n}, core.VEvent{K: "RP", Node: n, N: 1}, core.VEvent{K: "RP", Node: n, Split: true}, core.VEvent{K: "RP", Node: n, N: 1, Fail: true})
 	}
@@ -195,7 +195,25 @@ func runCluster(prop string) *ShardResult {
 	thorough := *fTier == "thorough"
 	total := *fBudget
 	runVConc(res, prop, total/5)
-	*fBudget = total * 4 / 5
+	if prop == "C16" {
+		// the middleware over a real WAL (default codec, reused read buffers): nothing is ever altered, so no
+		// report may speak of corruption
+		dl := time.Now().Add(total / 10)
+		tn := 0
+		twinSeqs(3, func() bool { return time.Now().Before(dl) }, func(cur []core.TOp) {
+			tn++
+			r := core.RunTwin(cur, core.Config{SegSize: 200})
+			res.Counts["twin_sequences_over_wal"]++
+			res.Counts["evaluations"]++
+			res.Counts["traces_validated"]++
+			for _, v := range r.Viol {
+				if v.Prop == "C16" && len(res.Findings) < 40 {
+					res.Findings = append(res.Findings, core.Finding{Prop: "C16", Engine: "twin", Msg: v.Msg, Extra: map[string]interface{}{"ops": cur, "sequence": twinString(cur)}, SigS: "C16|twin|" + twinString(cur)})
+				}
+			}
+		})
+	}
+	*fBudget = total * 7 / 10
 	defer func() { *fBudget = total }()
 	nodes, depth := 2, 7
 	if thorough {
@@ -353,6 +371,54 @@ func mutationSweep(res *ShardResult, nodes int, hists [][]core.VEvent, deadline 
 	}
 }
 
+
+// twinSeqs visits every sequence of length 1..depth over the twin alphabet (which depends on the twin's
+// first/last index, tracked by a tiny model).
+func twinSeqs(depth int, goOn func() bool, visit func(cur []core.TOp)) {
+	var rec func(cur []core.TOp, first, last uint64)
+	rec = func(cur []core.TOp, first, last uint64) {
+		if !goOn() {
+			return
+		}
+		if len(cur) > 0 {
+			visit(cur)
+		}
+		if len(cur) >= depth {
+			return
+		}
+		for _, o := range twinAlphabet(first, last) {
+			f, l := first, last
+			switch o.K {
+			case "A":
+				if !o.Gap && o.CP != "foreign" && o.CP != "short" {
+					if l == 0 {
+						f = 1
+					}
+					l += uint64(o.N)
+				}
+			case "D":
+				if l > 0 && o.Min <= l && o.Max >= f {
+					if o.Min <= f {
+						if o.Max >= l {
+							f, l = 0, 0
+						} else {
+							f = o.Max + 1
+						}
+					} else if o.Max >= l {
+						l = o.Min - 1
+					}
+				}
+			}
+			if l == 0 {
+				f = 0
+			}
+			// after an emptying truncation the WAL accepts any index; the driver appends at last+1 = 1 again
+			rec(append(append([]core.TOp{}, cur...), o), f, l)
+		}
+	}
+	rec(nil, 0, 0)
+}
+
 func init() { engines["C18"] = runC18 }
 
 func twinAlphabet(first, last uint64) []core.TOp {
@@ -391,65 +457,34 @@ func runC18() *ShardResult {
 	// (a) twin sequences; the alphabet depends on the twin's first/last, tracked by a tiny model
 	n := 0
 	finals := map[string]bool{}
-	var rec func(cur []core.TOp, first, last uint64)
-	rec = func(cur []core.TOp, first, last uint64) {
+	twinSeqs(depth, func() bool {
 		if time.Now().After(deadline) {
 			res.Exhaustive = false
-			return
+			return false
 		}
-		if len(cur) > 0 {
-			n++
-			if *fNShards <= 1 || n%*fNShards == *fShard {
-				r := core.RunTwin(cur, core.Config{SegSize: 200})
-				res.Counts["evaluations"]++
-				res.Counts["transitions"] += int64(len(cur))
-				res.Counts["traces_validated"]++
-				if r.Checkpoints > 0 {
-					res.Counts["distinct_nontrivial"]++
+		return true
+	}, func(cur []core.TOp) {
+		n++
+		if *fNShards <= 1 || n%*fNShards == *fShard {
+			r := core.RunTwin(cur, core.Config{SegSize: 200})
+			res.Counts["evaluations"]++
+			res.Counts["transitions"] += int64(len(cur))
+			res.Counts["traces_validated"]++
+			if r.Checkpoints > 0 {
+				res.Counts["distinct_nontrivial"]++
+			}
+			finals[r.FinalSig] = true
+			for _, v := range r.Viol {
+				if v.Prop == "C16" {
+					continue // reported by C16's own run of these sequences
 				}
-				finals[r.FinalSig] = true
-				for _, v := range r.Viol {
-					addF(v.Msg, "twin|"+twinString(cur)+"|"+firstLine(v.Msg), map[string]interface{}{"ops": cur, "sequence": twinString(cur)})
-				}
-				if len(res.Samples) < 2 && len(cur) == depth && r.Dropped > 0 {
-					res.Samples = append(res.Samples, map[string]interface{}{"sequence": twinString(cur), "result": r.FinalSig})
-				}
+				addF(v.Msg, "twin|"+twinString(cur)+"|"+firstLine(v.Msg), map[string]interface{}{"ops": cur, "sequence": twinString(cur)})
+			}
+			if len(res.Samples) < 2 && len(cur) == depth && r.Dropped > 0 {
+				res.Samples = append(res.Samples, map[string]interface{}{"sequence": twinString(cur), "result": r.FinalSig})
 			}
 		}
-		if len(cur) >= depth {
-			return
-		}
-		for _, o := range twinAlphabet(first, last) {
-			f, l := first, last
-			switch o.K {
-			case "A":
-				if !o.Gap && o.CP != "foreign" && o.CP != "short" {
-					if l == 0 {
-						f = 1
-					}
-					l += uint64(o.N)
-				}
-			case "D":
-				if l > 0 && o.Min <= l && o.Max >= f {
-					if o.Min <= f {
-						if o.Max >= l {
-							f, l = 0, 0
-						} else {
-							f = o.Max + 1
-						}
-					} else if o.Max >= l {
-						l = o.Min - 1
-					}
-				}
-			}
-			if l == 0 {
-				f = 0
-			}
-			// after an emptying truncation the WAL accepts any index; the driver appends at last+1 = 1 again
-			rec(append(append([]core.TOp{}, cur...), o), f, l)
-		}
-	}
-	rec(nil, 0, 0)
+	})
 	for k := range finals {
 		res.Sets["states"] = append(res.Sets["states"], "twin:"+k)
 	}
